@@ -16,6 +16,10 @@ ops:  ["c", hid, skey, name, {"wids":[..], "uargs":[..], "uarg":x, "beh":[ops], 
       ["k", wid]                      drop the last strong reference to weak argument wid + gc.collect()
       ["k1", wid]                     the same, but only in the handler's first call made by an outermost emit
       ["drop", skey]                  drop the last strong reference to the sender + gc.collect()
+
+Two further families have their own small interpreters: class-definition histories for the MetaSignals metaclass
+(`run_metaclass_program`: which names each class accepts afterwards) and the connections the library makes and drops
+itself (`run_setter_history`: `ListBox.body = ...`; `run_mainloop_history`: MainLoop.start()/stop()).
 """
 from __future__ import annotations
 
